@@ -634,6 +634,28 @@ fn run_wf(args: &[String]) {
 // ------------------------------------------------------------------------------------------------
 // class mode: every request class exported by TLC from spec/WireFrame.tla, concretised k times
 
+/// A fresh server that has answered one INIT of a 7.<minor> client (the state later requests depend on: Server::vers).
+pub fn negotiated_server(abi: &Abi, minor: u64) -> (Arc<ScriptedFs>, Server<Arc<ScriptedFs>>) {
+    let fs = Arc::new(ScriptedFs::new("s"));
+    let server = Server::new(fs.clone());
+    let mut iv = Vals::new();
+    iv.insert("major".into(), 7);
+    iv.insert("minor".into(), minor);
+    let mut body = abi.encode("fuse_init_in", &iv);
+    body.truncate(16);
+    let mut h = Vals::new();
+    h.insert("len".into(), 56);
+    h.insert("opcode".into(), abi.konst("FUSE_INIT"));
+    h.insert("unique".into(), 1);
+    let mut ib = abi.encode("fuse_in_header", &h);
+    ib.extend(body);
+    fs.set(Ret::Init(0));
+    let pair = SeqPair::new();
+    let _ = run_fusedev(&server, &ib, 4096, None, &pair);
+    fs.take_log();
+    (fs, server)
+}
+
 pub struct ClassReq {
     pub bytes: Vec<u8>,
     pub cap: usize,
@@ -815,7 +837,16 @@ pub fn concretise(abi: &Abi, rng: &mut Rng, c: &Value) -> Option<ClassReq> {
     }
     // scripted result and reply capacity
     let (okret, okbody) = success_ret(rng, abi, op, size_hint);
-    let script = if fsres == "err" { Ret::Err { os: rng.range(1, 133) as i32, kind: None } } else { okret };
+    let script = if fsres == "err" {
+        Ret::Err { os: rng.range(1, 133) as i32, kind: None }
+    } else if fsres == "neg" {
+        // a negative entry: inode 0 with an entry timeout
+        let mut e = rentry(rng);
+        e.inode = 0;
+        Ret::Entry(e)
+    } else {
+        okret
+    };
     let need = 16 + okbody;
     let mut cap = match capc {
         "c0" => 0,
@@ -958,6 +989,8 @@ fn run_classes(args: &[String]) {
     let fs = Arc::new(ScriptedFs::new("s"));
     let server = Server::new(fs.clone());
     let pair = SeqPair::new();
+    let pre: Vec<_> = [0u64, 1, 2, 3].iter().map(|m| negotiated_server(&abi, *m)).collect();
+    let post: Vec<_> = [4u64, 5, 33].iter().map(|m| negotiated_server(&abi, *m)).collect();
     let mut skipped = 0usize;
     for (i, line) in cases.lines().enumerate() {
         if line.trim().is_empty() || (i + env_u64("VERIF_SEED", 1) as usize) % stride != 0 {
@@ -974,11 +1007,18 @@ fn run_classes(args: &[String]) {
                     continue;
                 }
             };
-            fs.set(cr.script.clone());
-            let (o, hk) = run_one(&server, &fs, &pair, &mut rng, c["tr"].as_str().unwrap(), &cr.bytes, cr.cap, c["vu"].as_bool().unwrap());
-            let b = Built { bytes: cr.bytes.clone(), req: hdr_json(&cr.bytes, cr.unique), script: cr.script.clone(), cap_hint: 0 };
+            // LOOKUP is the handler that reads the negotiated version: it runs on servers that only ever saw one INIT
             let opname = c["op"].as_str().unwrap();
-            emit_tx(&mut tr, &abi, &fs, c["tr"].as_str().unwrap(), opname, "class", &b, &o, json!({"cap": cr.cap, "cls": c, "pred": case["o"], "hooks": {"collect": hk.0, "release": hk.1, "init_params": hk.2}}));
+            let (fs, server) = if opname == "LOOKUP" {
+                let p = if c["sess"] == "pre74" { &pre[rng.below(4) as usize] } else { &post[rng.below(3) as usize] };
+                (&p.0, &p.1)
+            } else {
+                (&fs, &server)
+            };
+            fs.set(cr.script.clone());
+            let (o, hk) = run_one(server, fs, &pair, &mut rng, c["tr"].as_str().unwrap(), &cr.bytes, cr.cap, c["vu"].as_bool().unwrap());
+            let b = Built { bytes: cr.bytes.clone(), req: hdr_json(&cr.bytes, cr.unique), script: cr.script.clone(), cap_hint: 0 };
+            emit_tx(&mut tr, &abi, fs, c["tr"].as_str().unwrap(), opname, "class", &b, &o, json!({"cap": cr.cap, "cls": c, "pred": case["o"], "hooks": {"collect": hk.0, "release": hk.1, "init_params": hk.2}}));
         }
     }
     tr.emit(&json!({"e": "End", "n": tr.n, "skipped": skipped}));
